@@ -158,6 +158,47 @@ func c16WellFormedRow(sl []any) bool {
 	return false
 }
 
+// c16Shape describes an input as the caller sees it: lists by their entries (recursively), everything else
+// by its type. Marshal reads its input; it does not rewrite it.
+func c16Shape(v any, depth int) string {
+	if sl, ok := v.([]any); ok && depth < 64 {
+		p := make([]string, len(sl))
+		for i, e := range sl {
+			p[i] = c16Shape(e, depth+1)
+		}
+		return "[" + strings.Join(p, " ") + "]"
+	}
+	return fmt.Sprintf("%T", v)
+}
+
+// c16ZeroHandles counts the zero-valued Stacks and Conditions found as entries / elements anywhere in v.
+func c16ZeroHandles(v any, depth int) int {
+	if depth > 64 {
+		return 0
+	}
+	n := 0
+	switch tv := v.(type) {
+	case []any:
+		for _, e := range tv {
+			n += c16ZeroHandles(e, depth+1)
+		}
+		return n
+	case stackage.Stack:
+		if !tv.IsInit() {
+			return 1
+		}
+		for _, e := range contents(tv) {
+			n += c16ZeroHandles(e, depth+1)
+		}
+	case stackage.Condition:
+		if !tv.IsInit() {
+			return 1
+		}
+		n += c16ZeroHandles(tv.Expression(), depth+1)
+	}
+	return n
+}
+
 func undecodedEnvelope(v any, depth int) string {
 	if depth > 48 {
 		return ""
@@ -224,6 +265,7 @@ func c16Run(c *Ctx, cs c16Case, count bool, neighbours ...jnode) {
 		c.Traces.Add(1)
 	}
 	dead := false
+	shapeBefore, zerosBefore := c16Shape(in, 0), c16ZeroHandles(in, 0)
 	p := func() (msg string) {
 		defer func() {
 			if r := recover(); r != nil {
@@ -259,6 +301,9 @@ func c16Run(c *Ctx, cs c16Case, count bool, neighbours ...jnode) {
 				return
 			}
 		}
+	}
+	if after := c16Shape(in, 0); after != shapeBefore {
+		c.Violation("input-rewritten", fmt.Sprintf("%s rewrote the caller's input (decoding it a second time would decode something else): it was %s and now is %s", desc, shapeBefore, after), cs, size)
 	}
 	if cs.Recv == "and-mutex-marshaler" {
 		// the user's closure decides what Marshal does: what is asked here is that it returns at all, and
@@ -333,6 +378,12 @@ func c16Run(c *Ctx, cs c16Case, count bool, neighbours ...jnode) {
 				c.Violation("panic-after:IsEqual(other)", fmt.Sprintf("%s succeeded; IsEqual (direction %d) against the stack marshalled from %s panicked: %s", desc, dir, other, p), cs, size)
 				return
 			}
+		}
+	}
+	// nothing that was an entry of the input has turned into a zero-valued Stack or Condition
+	if err == nil && recv.IsInit() {
+		if zerosAfter := c16ZeroHandles(recv, 0); zerosAfter > zerosBefore {
+			c.Violation("entry-replaced-by-zero-value", fmt.Sprintf("%s: the result holds %d zero-valued Stack / Condition element(s), the input held %d: an entry that could not be decoded was replaced instead of kept", desc, zerosAfter, zerosBefore), cs, size)
 		}
 	}
 	// every nested envelope that starts with a recognised stack label must have been decoded
